@@ -5,7 +5,7 @@ from .C20 import m_is_inside_any, _validate as _validate_inside
 
 ID = "C12"
 WT = "breezy.bzr.workingtree"
-FUNCTIONS = [WT + ":InventoryWorkingTree.remove"]
+FUNCTIONS = [WT + ":InventoryWorkingTree.remove", "breezy.transform:_alter_files"]
 STUBS = ["the working tree is an instance of the real InventoryWorkingTree class created without a control directory; "
          "abspath / relpath / walkdirs / is_versioned / path2id / iter_changes / apply_inventory_delta and the control "
          "directory's _available_backup_name are stubs over a table of files; osutils (rename / lexists / isdir / "
@@ -19,8 +19,11 @@ ASSUMPTIONS = ["the named paths are files in the tree root with SYMBOLIC names (
                "reference: with --keep (the default for the API) nothing on disk is touched; with deletion requested and no "
                "--force a file that is unknown / newly added / modified is moved to a backup name instead of being deleted; "
                "unchanged versioned files are deleted; --force deletes; versioned files become unversioned in every case"]
-OUTSIDE = ["directories (non-empty directory handling, nested content)", "revert (_alter_files) and merge (_dump_conflicts), "
-           "which need a tree transform over real trees", "more files than the bound"]
+OUTSIDE = ["directories (non-empty directory handling, nested content)", "merge (_dump_conflicts), which needs a tree "
+           "transform over real trees", "revert: what the tree transform then does with the recorded operations (apply; see "
+           "C13), TreeTransform._available_backup_name itself (modelled), renames / reparenting during revert, a file that the "
+           "basis lacks but the target has (the code deletes it; the property's 'differs from the basis' does not settle "
+           "that case)", "more files than the bound"]
 
 
 def m_available_backup_name(base, exists):
@@ -214,6 +217,200 @@ def ob_remove(cx):
     cx.observe("log", [(e[0], e[1]) for e in log])
 
 
+TR = "breezy.transform"
+
+
+def ob_revert_backup(cx):
+    """_alter_files (the body of revert): per changed path decide between deleting the working content, keeping it in
+    place and moving it to a backup name.  Every per-path fact is symbolic."""
+    M = cx.mod(TR)
+    T = cx.truth
+    n = cx.choose("nchanges", 1, cx.p("nchanges"))
+    backups = bool(cx.choose("backups", 0, 1))
+    chg = []
+    merge_modified = {}
+    for i in range(n):
+        name = "f%d" % i
+        wt_kind = cx.pick("wt_kind%d" % i, ["file", "symlink", "directory", None])
+        target_kind = cx.pick("target_kind%d" % i, ["file", "symlink", "directory", None])
+        if wt_kind is None and target_kind is None:
+            cx.assume(False)
+        wt_versioned = wt_kind is None or bool(cx.choose("wt_versioned%d" % i, 0, 1))    # a missing file is versioned
+        target_versioned = target_kind is not None
+        in_basis = bool(cx.choose("in_basis%d" % i, 0, 1))
+        wt_sha = cx.int("wt_sha%d" % i, 0, 3)
+        basis_sha = cx.int("basis_sha%d" % i, 0, 3)
+        target_sha = cx.int("target_sha%d" % i, 0, 3)
+        if cx.choose("merge_written%d" % i, 0, 1):
+            merge_modified[name] = cx.int("mm_sha%d" % i, 0, 3)       # a previous merge recorded having written this hash
+        if wt_kind == "file" and target_kind == "file":
+            changed = T(wt_sha != target_sha)
+        elif wt_kind == target_kind:
+            changed = bool(cx.choose("changed%d" % i, 0, 1))          # symlink target / directory: reported by the tree
+        else:
+            changed = True
+        wt_exec = bool(cx.choose("wt_exec%d" % i, 0, 1)) if wt_kind == "file" else False
+        t_exec = bool(cx.choose("t_exec%d" % i, 0, 1)) if target_kind == "file" else False
+        if not changed and wt_versioned == target_versioned and wt_exec == t_exec:
+            cx.assume(False)                                          # iter_changes would not report it
+        taken = cx.choose("backup_taken%d" % i, 0, 2)                 # NAME.~1~ .. NAME.~taken~ already exist
+        chg.append(dict(i=i, name=name, wt_kind=wt_kind, target_kind=target_kind, wt_versioned=wt_versioned,
+                        target_versioned=target_versioned, in_basis=in_basis, wt_sha=wt_sha, basis_sha=basis_sha,
+                        target_sha=target_sha, changed=changed, wt_exec=wt_exec, t_exec=t_exec, taken=taken))
+    initial_mm = dict(merge_modified)
+    log = []
+
+    class Change:
+        def __init__(self, c):
+            nm = c["name"]
+            self.path = (nm if c["target_versioned"] else None, nm if c["wt_kind"] is not None or c["wt_versioned"] else None)
+            self.versioned = (c["target_versioned"], c["wt_versioned"])
+            self.name = (nm if c["target_versioned"] else None, nm)
+            self.kind = (c["target_kind"], c["wt_kind"])
+            self.executable = (c["t_exec"], c["wt_exec"])
+            self.changed_content = c["changed"]
+            self.parent_id = (b"root-id", b"root-id")
+            self.file_id = b"id-%d" % c["i"]
+
+        def is_reparented(self):
+            return False
+
+    def by_name(path):
+        for c in chg:
+            if c["name"] == path:
+                return c
+        raise AssertionError("unexpected path %r" % (path,))
+
+    class Basis:
+        def lock_read(self):
+            return contextlib.nullcontext()
+
+        def get_file_sha1(self, path):
+            return by_name(path)["basis_sha"]
+
+    basis = Basis()
+
+    class WTree:
+        def iter_changes(self, target, specific_files=None, pb=None):
+            return [Change(c) for c in chg]
+
+        def get_file_sha1(self, path):
+            return by_name(path)["wt_sha"]
+
+        def basis_tree(self):
+            return basis
+
+        def supports_content_filtering(self):
+            return False
+
+    class Target:
+        def is_versioned(self, path):
+            return True
+
+        def get_file_sha1(self, path):
+            return by_name(path)["target_sha"]
+
+        def get_symlink_target(self, path):
+            return "target"
+
+        def iter_files_bytes(self, wanted):
+            return [(ident, [b"new content"]) for _path, ident in wanted]
+
+    wtree, target = WTree(), Target()
+
+    class Inter:
+        def __init__(self, source, tgt):
+            self.source, self.tgt = source, tgt
+
+        def find_source_path(self, path):
+            if self.source is not basis:
+                raise AssertionError("unexpected source tree")
+            return path if by_name(path)["in_basis"] else None
+
+    class InterTree:
+        get = staticmethod(Inter)
+    M.InterTree = InterTree
+
+    class TT:
+        def __init__(self):
+            self.n = 0
+
+        def trans_id_tree_path(self, path):
+            return "tree:" + path
+
+        def trans_id_file_id(self, file_id):
+            return "tree:"
+
+        def assign_id(self):
+            self.n += 1
+            return "new-%d" % self.n
+
+        def create_path(self, name, parent):
+            tid = self.assign_id()
+            log.append(("create_path", tid, name, parent))
+            return tid
+
+        def _available_backup_name(self, name, parent):
+            if parent != "tree:":
+                raise AssertionError("backup looked for in %r" % (parent,))
+            c = by_name(name)
+            return m_available_backup_name(name, lambda nm: any(nm == "%s.~%d~" % (name, k) for k in range(1, c["taken"] + 1)))
+
+        def fixup_new_roots(self):
+            pass
+
+        def __getattr__(self, op):
+            if op.startswith("__"):
+                raise AttributeError(op)
+
+            def record(*a, **k):
+                log.append((op,) + a)
+            return record
+    tt = TT()
+    with contextlib.ExitStack() as es:
+        M._alter_files(es, wtree, target, tt, None, None, backups, merge_modified, basis)
+    for c in chg:
+        tid = "tree:" + c["name"]
+        # user-edited content in the sense of the property: a file whose content differs from the basis (or that the basis
+        # does not have at all and the target does not either: a newly added file) and that was not written by a merge
+        mm = initial_mm.get(c["name"])
+        merge_wrote = mm is not None and T(mm == c["wt_sha"])
+        if c["in_basis"]:
+            edited = T(c["wt_sha"] != c["basis_sha"])
+        else:
+            edited = c["target_kind"] is None
+        deleted = [e for e in log if e[0] == "delete_contents" and e[1] == tid]
+        moved = [e for e in log if e[0] == "adjust_path" and e[3] == tid]
+        if not (c["wt_kind"] == "file" and c["changed"] and edited and not merge_wrote):
+            cx.cover("not_user_content")
+            continue
+        if c["target_kind"] is None:
+            cx.require(not deleted, "change %d: an edited file that the target does not have must stay in the working "
+                       "directory (unversioned); its content was deleted" % c["i"])
+            cx.require(not moved, "change %d: an edited file that is only being unversioned was moved: %r" % (c["i"], moved))
+            cx.cover("kept_in_place")
+        elif backups:
+            cx.require(not deleted, "change %d: the file was edited (content differs from the basis, not written by a "
+                       "merge) and backups were not switched off, yet its content is deleted" % c["i"])
+            want = "%s.~%d~" % (c["name"], c["taken"] + 1)
+            cx.require(len(moved) == 1 and moved[0][1] == want and moved[0][2] == "tree:",
+                       "change %d: edited content must be moved to the free backup name %s, got %r" % (c["i"], want, moved))
+            made = [e for e in log if e[0] == "create_path" and e[2] == c["name"]]
+            cx.require(len(made) == 1, "change %d: no fresh path for the reverted content" % c["i"])
+            new_tid = made[0][1]
+            for e in log:
+                if e[0] in ("create_file", "create_symlink", "create_directory") and tid in e[1:]:
+                    if not (e[0] == "create_file" and e[1:3] != (tid,) and e[2] == new_tid):
+                        cx.require(False, "change %d: reverted content is written onto the path that now holds the "
+                                   "backup: %r" % (c["i"], e))
+            cx.cover("backed_up_revert")
+            if c["taken"]:
+                cx.cover("revert_earlier_backup_kept")
+        else:
+            cx.cover("discard_requested")
+    cx.observe("log", [e[:2] for e in log])
+
+
 def obligations(tier):
     q = tier == "quick"
     p = dict(nfiles=2 if q else 3, lname=2)
@@ -221,4 +418,11 @@ def obligations(tier):
                ["deleted", "backed_up", "kept", "earlier_backup_kept"], setup=setup,
                bounds="<= %(nfiles)d files with symbolic names of <= %(lname)d chars, each unchanged / modified / newly added / "
                       "unknown / versioned but missing, each with or without an earlier backup NAME.~1~ in the working directory; "
-                      "keep or delete, forced or not" % p)]
+                      "keep or delete, forced or not" % p),
+            Ob("revert_backup", ob_revert_backup, [(TR, {})], dict(nchanges=1 if q else 2), 900 if q else 7200, 2 if q else 1,
+               ["not_user_content", "kept_in_place", "backed_up_revert", "revert_earlier_backup_kept", "discard_requested"],
+               setup=setup,
+               bounds="_alter_files over <= %d reported change(s); working / target kind file / symlink / directory / absent, "
+                      "versioned or not, in the basis or not, content hashes of working tree / basis / target / merge record "
+                      "symbolic (every pattern of equalities), backups on / off, 0..2 earlier backups present"
+                      % (1 if q else 2))]
